@@ -840,6 +840,54 @@ pub fn generate_c10(args: &Args, out: &mut Out) {
             out.case_str(&format!("kk | {} | {{ {} }}", a, ents.join(" ")));
         }
     }
+    // repeated member names (outside I-JSON, inside this property): same-named members are ordered by
+    // their canonical values, so the values' source spelling and inner member order must not matter
+    let dup_vals: Vec<String> = {
+        let n = |s: &str| format!("#{}", hex_str(s));
+        vec![
+            n("0.2e2"), n("100"), n("20"), n("1.0E2"), n("2e1"), n("9"), n("0.9e1"), n("10.0"), n("-0"), n("0"),
+            format!("{{ $7a {} $61 {} }}", n("1.50"), n("2")),
+            format!("{{ $61 {} $7a {} }}", n("2.0"), n("15e-1")),
+            format!("{{ $61 {} $61 {} }}", n("1e1"), n("9")),
+            format!("[ {} ]", n("1e0")),
+            format!("[ {} ]", n("0.5")),
+            "n".into(),
+            "$61".into(),
+        ]
+    };
+    for _ in 0..(if full { 8000 } else { 1200 }) {
+        let mut r = rng.fork();
+        let names = ["$61", "$62", "$-", "$1f600"];
+        let n = r.range(2, 6);
+        let ents: Vec<String> = (0..n)
+            .map(|_| {
+                let m = 2 + r.below(3);
+                format!("{} {}", names[r.below(m)], r.pick(&dup_vals))
+            })
+            .collect();
+        let s = format!("{{ {} }}", ents.join(" "));
+        let s = if r.chance(1, 4) { format!("[ {s} {{ $6b {s} }} ]") } else { s };
+        out.case_str(&format!("k | {s}"));
+        let t: Vec<&str> = toks(&s);
+        let (v, _) = dec_value(&t);
+        let w = respell_value(&mut r, &v);
+        out.case_str(&format!("kk | {} | {}", s, value_str(&w)));
+        let w2 = respell_value(&mut r, &w);
+        out.case_str(&format!("kk | {} | {}", value_str(&w), value_str(&w2)));
+    }
+    // wide objects (33..90 members) with repeated names, against a shuffled copy
+    for _ in 0..(if full { 1500 } else { 150 }) {
+        let mut r = rng.fork();
+        let n = *r.pick(&[31usize, 32, 33, 34, 40, 64, 65, 90]);
+        let nk = r.range(3, n);
+        let ents: Vec<String> = (0..n).map(|_| format!("${} #{}", hex_str(&format!("m{}", r.below(nk))), hex_str(&format!("{}", r.below(4))))).collect();
+        let s = format!("{{ {} }}", ents.join(" "));
+        out.case_str(&format!("k | {s}"));
+        let t: Vec<&str> = toks(&s);
+        let (v, _) = dec_value(&t);
+        let w = respell_value(&mut r, &v);
+        out.case_str(&format!("kk | {} | {}", s, value_str(&w)));
+    }
     // numbers: exact respellings
     for _ in 0..(if full { 20000 } else { 2500 }) {
         let mut r = rng.fork();
